@@ -26,6 +26,8 @@ VALID = {
     "-regextype": lambda s: s in ("emacs", "grep", "posix-basic", "posix-extended", "ed", "sed"),
     "-printf": lambda s: not (s.endswith("%") and not s.endswith("%%")) and not (s.endswith("\\") and not s.endswith("\\\\")),
     "-newer": lambda s: True,
+    "-user": lambda s: s in ("root", "daemon") or (re.fullmatch(r"[0-9]+", s) is not None and int(s) < 2 ** 32),
+    "-group": lambda s: s in ("root", "daemon") or (re.fullmatch(r"[0-9]+", s) is not None and int(s) < 2 ** 32),
 }
 for a, b in (("-links", "-inum"), ("-uid", "-inum"), ("-gid", "-inum"), ("-mtime", "-inum"), ("-mmin", "-inum"), ("-mindepth", "-maxdepth")):
     VALID[a] = VALID[b]
@@ -60,7 +62,20 @@ def ref_accepts(words):
         if t == "-print":
             pos[0] += 1
             return
-        if t in PRIMS:
+        if t in ("-exec", "-execdir"):
+            i = pos[0]
+            j = i + 1
+            while j < len(words) and words[j] != ";" and not (words[j - 1] == "{}" and words[j] == "+"):
+                j += 1
+            if j == len(words): raise Rej("no terminator for " + t)
+            if words[j] == ";":
+                if j < i + 2: raise Rej("no command for " + t)
+            else:
+                if j < i + 3: raise Rej("no command for %s ... {} +" % t)
+                if sum(1 for w in words[i + 2:j] if w == "{}") != 1: raise Rej("more than one {} with +")
+            pos[0] = j + 1
+            return
+        if t in PRIMS or t in ("-user", "-group"):
             pos[0] += 1
             op = peek()
             if op is None: raise Rej("missing argument to " + t)
@@ -134,9 +149,9 @@ def natives():
         g = deref(args[0]).fields[0][args[1]]
         return Some(Struct("MatchV", [g])) if g is not None else NONE()
 
-    def parse_int(m, args):
+    def parse_int(m, args, bits=64):
         s = text_of(m, args[0])
-        if re.fullmatch(r"\+?[0-9]+", s) and int(s) < 2 ** 64:
+        if re.fullmatch(r"\+?[0-9]+", s) and int(s) < 2 ** bits:
             return Ok(int(s))
         return Err(Opaque("ParseIntError"))
     def parse_signed(m, args, bits):
@@ -146,17 +161,28 @@ def natives():
         return Err(Opaque("ParseIntError"))
 
     def parse_model(m, args, raw):
-        if re.search(r"parse::<(u64|usize|u32)>$", raw):
-            return parse_int(m, args)
+        mu = re.search(r"parse::<u(8|16|32|64|size)>$", raw)
+        if mu:
+            return parse_int(m, args, 64 if mu.group(1) == "size" else int(mu.group(1)))
         ms = re.search(r"parse::<i(8|16|32|64|128|size)>$", raw)
         if ms:
             return parse_signed(m, args, 64 if ms.group(1) == "size" else int(ms.group(1)))
         ty = re.search(r"parse::<(.*)>$", raw).group(1).split("::")[-1]
         return m.call("<%s as FromStr>::from_str" % ty, [RStr(text_of(m, args[0]))])
     models.EXACT["str::parse"] = parse_model
+    def from_name(kind):
+        def f(m, args):
+            name = text_of(m, args[0])
+            ids = {"root": 0, "daemon": 1}
+            if name in ids:
+                return Ok(Some(Struct(kind, [RStr(name), Opaque("passwd"), Struct("Id", [ids[name]]), Opaque("rest"), Opaque("rest"), Opaque("rest"), Opaque("rest")])))
+            return Ok(NONE())
+        return f
     nat = c16_printf.str_natives()
     c16_printf.with_closures(nat)
-    nat.update({"Regex::new": regex_new, "Regex::captures": captures, "<Captures as Index>::index": cap_index, "Captures::get": cap_get,
+    nat.update({"User::from_name": from_name("User"), "Group::from_name": from_name("Group"), "Uid::as_raw": lambda m, a: deref(a[0]).fields[0], "Gid::as_raw": lambda m, a: deref(a[0]).fields[0],
+                "SingleExecMatcher::new": lambda m, a: Ok(Struct("SingleExecMatcher", [])), "MultiExecMatcher::new": lambda m, a: Ok(Struct("MultiExecMatcher", [])),
+                "Regex::new": regex_new, "Regex::captures": captures, "<Captures as Index>::index": cap_index, "Captures::get": cap_get,
                 "Match::as_str": lambda m, a: RStr(deref(a[0]).fields[0]), "str::parse": None,
                 "Printf::new": rerun("Printf::new", 1), "parse_str_to_newer_args": rerun("parse_str_to_newer_args", 1),
                 "convert_arg_to_comparable_value_and_suffix": rerun("convert_arg_to_comparable_value_and_suffix", 2),
@@ -315,6 +341,9 @@ def explore_newer_names(funcs, index, enums):
 
 
 PAIR_VOCAB = PRIMS + NEWER_JUNK + OPERANDS + OTHERS
+# -exec / -execdir terminators and -user / -group operands (names are answered by a model of the passwd / group lookup: root and daemon exist)
+EXEC_VOCAB = ["-exec", "-execdir", "cmd", "{}", "+", ";", "x{}", "-user", "-group", "root", "nosuch", "5", "", "4294967296", "-print", "!"]
+EXEC_SMALL = ["-exec", "cmd", "{}", "+", ";", "-print", "-user", "root"]
 
 
 if __name__ == "__main__":
